@@ -18,6 +18,7 @@
 (*   cls = "pat"    byte i = (key + 131*i + i \div 251) % 256   (all values) *)
 (*   cls = "ascii"  byte i = 32 + (key + 7*i) % 90              (7-bit)      *)
 (*   cls = "secret" byte i = 160 + 2*key + (i % 2)   reserved per file       *)
+(*   cls = "text"   byte i = TextTable[i % 23]  (BOM, CRLF / LF / CR, NUL ..) *)
 (*                  (key <= 32; the built-in index page contains the bytes   *)
 (*                  128, 148, 226 of an em dash, so the range starts at 160): *)
 (*                  these two byte values occur in no other file, in no      *)
@@ -84,10 +85,14 @@ Climbs(segs) == ~DepthAfter(segs, 0)
 
 -----------------------------------------------------------------------------
 \* file contents
+\* cls = "text": what text files contain and what careless "text handling" damages: a UTF-8 BOM first, CRLF, LF and CR
+\* line ends, blanks, a NUL, a lone Latin-1 byte, an empty line, dashes; the file length decides what it ends with
+TextTable == <<239, 187, 191, 60, 112, 62, 13, 10, 104, 105, 10, 13, 32, 9, 0, 228, 13, 10, 13, 10, 45, 45, 10>>
 PatByte(cls, key, i) ==
     CASE cls = "pat"    -> (key + (131 * i) + (i \div 251)) % 256
       [] cls = "ascii"  -> 32 + ((key + (7 * i)) % 90)
       [] cls = "secret" -> 160 + (2 * key) + (i % 2)
+      [] cls = "text"   -> TextTable[(i % Len(TextTable)) + 1]
 FileByte(W, f, i) == PatByte(Node(W, f).cls, Node(W, f).key, i)          \* i is a 0-based offset
 FileLen(W, f)     == Node(W, f).len
 \* bytes lo..hi (0-based, inclusive) of file f
